@@ -296,7 +296,7 @@ Print Assumptions C07_stale_ack_refuted.
 
 (* ---- begin block: message level (Model/Net3.v, Proofs/MsgSendP.v MsgRecvP.v MsgNetP.v) ---- *)
 From Model Require Import RecvHist Net3.
-From Proofs Require Import RecvHistP MsgRecvP MsgSendP MsgNetP.
+From Proofs Require Import RecvHistP MsgRecvP MsgSendP MsgFragP MsgNetP.
 
 (* 5m. "Success means the WHOLE MESSAGE was handed to the peer application", for unfragmented
       messages, as ONE theorem over joint histories of the two endpoints.  Net3 adds to Net2's ghost:
@@ -307,8 +307,8 @@ From Proofs Require Import RecvHistP MsgRecvP MsgSendP MsgNetP.
       and labels each event with a list js of message indices: when B accepts a datagram, js are the
       sender's true (unbounded) message indices of the messages dg_msgs d of that datagram.
       Schedule hypotheses per event (Net3.wf3_ev): Net2's (auth), (near), (fresh), and
-       for A: the application sends unfragmented payloads only (len p <= e_max_payload), with a user
-              callback or none;
+       for A: the application passes a user callback or none to send() (payloads of ANY size and
+              retry mode: fragmented sends may be interleaved);
        for B, when it accepts a datagram, message by message (Net3.mwf):
          (label)    the wire number of the message is wire j, j >= 1;
          (msg-near) j is within HALF of the newest message index B has processed (C08's half-range
@@ -367,14 +367,25 @@ Theorem C07_receiver_delivers : forall ws js c now orcs st c' o,
 Proof. exact recv_msgs_deliver. Qed.
 Print Assumptions C07_receiver_delivers.
 
-(* 5m.5 (c) THE theorem: whenever a step of A reports success for callback id, a payload p that A's
-      application passed to send() together with id HAS BEEN HANDED to B's application before this
-      moment (p in dlvB): it travelled as an APP message w of a datagram dA that A put on the wire as
-      index i and that B has accepted. *)
+(*      Fragmented sends: a fragment-sender context in pending_fragments holding user callback id only
+      ever comes from a send() of an oversized payload with that id (PFInv: holds initially, preserved
+      by EVERY event, no hypothesis). *)
+Theorem C07_frag_contexts_from_big_sends : forall e vs M,
+  PFInv e mnet0 /\ (PFInv e M -> PFInv e (mrun e M vs)).
+Proof. intros e vs M. split; [apply PFInv_mnet0|apply PFInv_run]. Qed.
+Print Assumptions C07_frag_contexts_from_big_sends.
+
+(* 5m.5 (c) THE theorem: whenever a step of A reports success for callback id, then EITHER id was passed
+      to send() with a payload that needs fragmenting (big_id: the report comes from the collector of a
+      fragmented send — not covered here), OR (delivered_as) a payload p that A's application passed to
+      send() together with id HAS BEEN HANDED to B's application before this moment (p in dlvB): it
+      travelled as an APP message w of a datagram dA that A put on the wire as index i and that B has
+      accepted. *)
 Theorem C07_success_means_delivered : forall e S K M vs x l js a' o id,
-  0 <= e_max_payload e -> J3 S K M -> wf3_run e M (vs ++ [((NA x, l), js)]) ->
+  0 <= e_max_payload e -> J3 S K M -> PFInv e M -> wf3_run e M (vs ++ [((NA x, l), js)]) ->
   let M' := mrun e M vs in
   step e (nA (g_net (m_g M'))) x = (a', o) -> In (OCallback id true) o ->
+  (exists p, In (p, id) (m_sent M') /\ len p > e_max_payload e) \/
   exists p i dA w,
     In (p, id) (m_sent M') /\ In p (dlvB (g_net (m_g M'))) /\
     In (i, dA) (g_AB (m_g M')) /\ In dA (wAB (g_net (m_g M'))) /\ In dA (g_accB (m_g M')) /\
@@ -382,11 +393,12 @@ Theorem C07_success_means_delivered : forall e S K M vs x l js a' o id,
 Proof. exact success_means_delivered. Qed.
 Print Assumptions C07_success_means_delivered.
 
-(* 5m.6 ... and if the application does not reuse callback ids, THE payload passed with id *)
+(* 5m.6 ... and if the application does not reuse callback ids: THE payload p passed with id in an
+      UNFRAGMENTED send (len p <= e_max_payload) has been handed to B's application *)
 Theorem C07_success_means_delivered_unique : forall e S K M vs x l js a' o id p,
-  0 <= e_max_payload e -> J3 S K M -> wf3_run e M (vs ++ [((NA x, l), js)]) ->
+  0 <= e_max_payload e -> J3 S K M -> PFInv e M -> wf3_run e M (vs ++ [((NA x, l), js)]) ->
   let M' := mrun e M vs in
-  NoDup (map snd (m_sent M')) -> In (p, id) (m_sent M') ->
+  NoDup (map snd (m_sent M')) -> In (p, id) (m_sent M') -> len p <= e_max_payload e ->
   step e (nA (g_net (m_g M'))) x = (a', o) -> In (OCallback id true) o ->
   In p (dlvB (g_net (m_g M'))).
 Proof. exact success_means_delivered_unique. Qed.
@@ -418,7 +430,7 @@ Ltac mwf_goal :=
 
 Ltac msg_goal :=
   match goal with
-  | |- small_x _ _ => cbn; repeat split; try exact I; vm_compute; discriminate
+  | |- user_x _ => exact I
   | |- forall d, accepts ?C ?X = Some d -> _ =>
       let d := fresh "d" in let Hd := fresh "Hd" in intros d Hd;
       let r := eval vm_compute in (accepts C X) in
@@ -514,7 +526,7 @@ Print Assumptions C07_delivered_needs_noraise_refuted.
       with J3).  So while A has created at most HALF messages (stats.sent <= HALF) and consumed at
       most HALF + 1 datagram numbers, with every message B processes labelled by its OWN wire number
       (js = map w_seq (dg_msgs d)), (label), (msg-near), (truthful) and — as in C07_short_sessions —
-      (near), (fresh) are automatic: (auth), (no-raise) and unfragmented traffic (short3_ev) suffice. *)
+      (near), (fresh) are automatic: (auth), (no-raise) and user callbacks (short3_ev) suffice. *)
 From Proofs Require Import MsgSeqP.
 
 Theorem C07_msg_table_fresh : TInv mnet0.
@@ -530,9 +542,10 @@ Qed.
 Print Assumptions C07_short_sessions_msg.
 
 Theorem C07_short_success_means_delivered : forall e S K M vs x l js a' o id,
-  0 <= e_max_payload e -> J3 S K M -> TInv M -> short3_run e M (vs ++ [((NA x, l), js)]) ->
+  0 <= e_max_payload e -> J3 S K M -> PFInv e M -> TInv M -> short3_run e M (vs ++ [((NA x, l), js)]) ->
   let M' := mrun e M vs in
   step e (nA (g_net (m_g M'))) x = (a', o) -> In (OCallback id true) o ->
+  (exists p, In (p, id) (m_sent M') /\ len p > e_max_payload e) \/
   exists p i dA w,
     In (p, id) (m_sent M') /\ In p (dlvB (g_net (m_g M'))) /\
     In (i, dA) (g_AB (m_g M')) /\ In dA (wAB (g_net (m_g M'))) /\ In dA (g_accB (m_g M')) /\
